@@ -1,4 +1,5 @@
 /* lst_vss.c - drives the main loop of examples/acf-vss/acf-vss-listener.c (C18) */
+#define LST_LEARN_REFERENCE 1
 #include "lst_common.h"
 static ssize_t lst_recv(int fd, void* buf, size_t n, int flags);
 #define main listener_main
@@ -102,14 +103,15 @@ static int lst_child(int mode, const seq_t* s)
 {
     if (mainloop_setup() < 0) return EX_HARNESS;
     vp_rng_t r; vp_rng_seed(&r, 99, 1);
-    if (s->n && (s->len[0] & 1)) {        /* half of the runs: an interoperable path, shorter than hostile ones seen before */
+    g_cur_mode = mode; g_cur_variant = g_variant_force >= 0 ? g_variant_force : (s->n && (s->len[0] & 1));
+    if (g_cur_variant) {                  /* half of the runs: an interoperable path, shorter than hostile ones seen before */
         uint8_t tmp[DGRAM_MAX]; memset(tmp, 0, sizeof tmp);
         g_sentinel_len = (int)build_valid(&r, mode, 0, g_sentinel, 0, 9, 13, 0, 0, 0x3fc00000);
         memcpy(g_sentinel + (mode ? 4 : 0) + 12 + 14, "Vehicle.Speed", 13);
-        g_expect = "VSS Path: Vehicle.Speed, VSS Value: 1.500000\n";
+        g_expect = "VSS Path: Vehicle.Speed, VSS Value: 1.500000\n"; g_expect_token = "Vehicle.Speed";
     } else {
         g_sentinel_len = (int)build_valid(&r, mode, 0, g_sentinel, 1, 9, 0, 0, 1234, 0x3fc00000);   /* static id 1234, float 1.5 */
-        g_expect = "VSS Path: 1234, VSS Value: 1.500000\n";
+        g_expect = "VSS Path: 1234, VSS Value: 1.500000\n"; g_expect_token = "1234";
     }
     char* argv_u[] = { "acf-vss-listener", "-u", 0 };
     char* argv_r[] = { "acf-vss-listener", "lo", "aa:bb:cc:dd:ee:ff", 0 };
